@@ -17,12 +17,13 @@ P2(x) == {<<t[1], t[2]>> : t \in S(x)}
 Has(r, f) == f \in DOMAIN r
 Count(s, x) == Cardinality({i \in 1..Len(s) : s[i] = x})
 St0 == [A |-> {}, B |-> {}]
-Ops == {"new", "add", "remove", "set", "iadd", "isub", "binop", "value", "proj", "pairs", "choices", "cbd", "nodes", "connected", "iso", "contains", "len"}
+Ops == {"new", "add", "batch", "remove", "set", "iadd", "isub", "binop", "value", "proj", "pairs", "choices", "cbd", "nodes", "connected", "iso", "contains", "len"}
 P3(p) == <<p[1], p[2], p[3]>>
 
 NewSt(M, e) ==
   CASE e.op = "new"    -> [A |-> T3(e.A0), B |-> T3(e.B0)]
     [] e.op = "add"    -> [M EXCEPT ![e.g] = @ \cup {P3(e.t)}]
+    [] e.op = "batch"  -> [M EXCEPT ![e.g] = @ \cup T3(e.ts)]
     [] e.op = "remove" -> [M EXCEPT ![e.g] = RemoveOp(@, P3(e.pat))]
     [] e.op = "set"    -> [M EXCEPT ![e.g] = SetOp(@, P3(e.t))]
     [] e.op = "iadd"   -> [M EXCEPT ![e.g] = @ \cup M[e.h]]
@@ -32,7 +33,7 @@ NewSt(M, e) ==
 Raised(e) == e.res.k = "raise"
 ResVerdict(M, e) ==
   LET r == e.res  G == IF Has(e, "g") THEN M[e.g] ELSE {} IN
-  CASE e.op \in {"new", "add", "remove", "set", "iadd", "isub"} -> IF r.k = "ok" THEN "ok" ELSE "OpRaised:" \o e.op
+  CASE e.op \in {"new", "add", "batch", "remove", "set", "iadd", "isub"} -> IF r.k = "ok" THEN "ok" ELSE "OpRaised:" \o e.op
     [] e.op = "binop" -> IF r.k # "set" THEN "OpRaised:binop"
                          ELSE IF T3(r.v) = BinOp(e.o, M[e.g], M[e.h]) /\ Len(r.v) = Cardinality(T3(r.v)) THEN "ok" ELSE "SetOperator:" \o e.o
     [] e.op = "value" ->
@@ -70,7 +71,7 @@ Judge(M, e) ==
   ELSE LET M2 == NewSt(M, e) IN
        IF T3(e.A) # M2.A \/ T3(e.B) # M2.B THEN
             (IF e.op = "new" THEN "StateAgrees:new"
-             ELSE IF e.op \in {"add", "remove", "set", "iadd", "isub"} /\ T3(e[e.g]) # M2[e.g] THEN "StateAgrees:" \o e.op
+             ELSE IF e.op \in {"add", "batch", "remove", "set", "iadd", "isub"} /\ T3(e[e.g]) # M2[e.g] THEN "StateAgrees:" \o e.op
              ELSE "OperandsUntouched:" \o e.op)
        ELSE IF e.lenA # Cardinality(M2.A) \/ e.lenB # Cardinality(M2.B) THEN "LenAgrees:" \o e.op
        ELSE "ok"
